@@ -216,6 +216,23 @@ pub fn run(ctx: &Ctx) {
         },
     );
 
+    let huge: Vec<u32> = ctx.tier.pick(vec![(1u32 << 16) + 5], vec![(1 << 20) + 5, (1 << 22) + 17]);
+    ctx.listed("huge_requests", "one very large request followed by small ones (2^16+5 words in the quick tier; up to 2^22+17 in the thorough tier)", move || {
+        huge.iter().map(|n| Split { key: Hex(expand_bytes(*n as u64 ^ 0x8a, 16)), iv: Hex(expand_bytes(*n as u64 ^ 0x8b, 16)), requests: vec![*n, 1, 0, 17] }).collect::<Vec<_>>()
+    }, check_split);
+
+    ctx.exhaustive("long_request_then_more", "request sizes [n, m, 1] for every n in 0..=70 and m in {0, 1, 5, 16, 17} (a request that ends inside a 16-word block of the LFSR, followed by further requests) x 2 (key, iv) pairs", || {
+        let mut v = Vec::new();
+        for draw in 0..2u64 {
+            for n in 0..=70u32 {
+                for m in [0u32, 1, 5, 16, 17] {
+                    v.push(Split { key: Hex(expand_bytes(draw ^ 0x10c8, 16)), iv: Hex(expand_bytes(draw ^ 0x10c9, 16)), requests: vec![n, m, 1] });
+                }
+            }
+        }
+        v
+    }, check_split);
+
     let seed = ctx.seed;
     ctx.cold("cold_start_keystream", "keystream generation as the first library operation of a fresh process", move || {
         (0..4u64).map(|i| Split { key: Hex(expand_bytes(seed ^ 0xc08d ^ i, 16)), iv: Hex(expand_bytes(seed ^ 0xc08e ^ i, 16)), requests: if i % 2 == 0 { vec![9] } else { vec![0, 1, 3, 5] } }).collect()
